@@ -302,6 +302,16 @@ func render(c gengo.Context, pieces []Piece, gen, typ string, st *state, into *s
 			for _, k := range keys {
 				fmt.Fprintf(&tb, " %s=%q", k, tags[k])
 			}
+			// ... and about the fields of a struct type
+			fieldDocs := []string{}
+			if st, ok := obj.Type().Underlying().(*types.Struct); ok {
+				for i := 0; i < st.NumFields(); i++ {
+					if _, fdoc := c.Doc(st.Field(i)); len(fdoc) > 0 {
+						fieldDocs = append(fieldDocs, st.Field(i).Name()+": "+strings.Join(fdoc, " | "))
+					}
+				}
+			}
+			doc = append(append([]string{}, doc...), fieldDocs...)
 			sn = snippet.Sprintf("\n%T\nvar _"+gen+"_doc_"+typ+" = %v\n", snippet.Comment(fmt.Sprintf("%s:%s doc=%q", typ, tb.String(), doc)), doc)
 		case "locate":
 			// prints which package gengo locates the type's declaration in
